@@ -122,7 +122,7 @@ func (w *world) flush(root common.Hash) error {
 
 // shutdown is a clean stop as the node performs it: persist what is needed to
 // come back at root, then close.
-func (w *world) shutdown(root common.Hash, full bool) error {
+func (w *world) shutdown(root common.Hash, full, onDisk bool) error {
 	if w.tdb.Scheme() == rawdb.PathScheme {
 		if full {
 			if err := w.tdb.Commit(root, false); err != nil {
@@ -133,8 +133,10 @@ func (w *world) shutdown(root common.Hash, full bool) error {
 			return fmt.Errorf("triedb.Journal: %w", err)
 		}
 	} else {
-		if err := w.tdb.Commit(root, false); err != nil {
-			return fmt.Errorf("triedb.Commit: %w", err)
+		if !onDisk {
+			if err := w.tdb.Commit(root, false); err != nil {
+				return fmt.Errorf("triedb.Commit: %w", err)
+			}
 		}
 		if w.snaps != nil {
 			if full {
@@ -176,6 +178,7 @@ type runner struct {
 	kv    *simdisk.SimKV
 	m     *Model
 	root  common.Hash
+	disk  common.Hash // root known to be completely on disk
 	where string
 	nobs  int
 }
@@ -267,6 +270,10 @@ func (r *runner) body() {
 		r.kv = simdisk.NewSimKV(nil)
 	}
 	r.root = common.BytesToHash(World{}.Root().Bytes())
+	r.disk = r.root
+	if len(p.Blocks) == 0 {
+		return
+	}
 	r.w = openWorld(r.kv, p, r.root)
 	r.m = NewModel()
 	reverts := 0
@@ -301,6 +308,12 @@ func (r *runner) checkErr(x *exec) {
 
 func (r *runner) runBlock(bi int, blk *Block) {
 	r.where = fmt.Sprintf("block %d", bi)
+	if eff := EffectiveRules(blk.Rules, r.m.World()); eff != blk.Rules {
+		b := *blk
+		b.Rules = eff
+		blk = &b
+		r.res.Probe("rules-clamped-eip7610")
+	}
 	rules := rulesOf(blk.Rules)
 	parent := r.root
 	st := r.newState(parent)
@@ -405,11 +418,12 @@ func (r *runner) runBlock(bi int, blk *Block) {
 			r.checkBlockBAL(cpBx, blk.CopyAt+len(blk.CopyTxs), "copy")
 		}
 	}
-	if blk.Flush && root != parent {
+	if blk.Flush && root != r.disk {
 		r.where = fmt.Sprintf("block %d flush", bi)
 		if err := r.w.flush(root); err != nil {
 			r.failf("flush-error", "%v", err)
 		}
+		r.disk = root
 		r.res.Probe("flushed")
 		r.checkFlat("after flush")
 	}
@@ -417,13 +431,17 @@ func (r *runner) runBlock(bi int, blk *Block) {
 		r.where = fmt.Sprintf("block %d clean restart", bi)
 		w := r.w
 		r.w = nil
-		if err := w.shutdown(root, blk.Reopen == 2); err != nil {
+		full := blk.Reopen == 2 && root != r.disk
+		if err := w.shutdown(root, full, root == r.disk); err != nil {
 			r.failf("shutdown-error", "%v", err)
+		}
+		if full {
+			r.disk = root
 		}
 		r.w = openWorld(r.kv, r.p, root)
 		r.res.Probe(fmt.Sprintf("restart-%s-%d", r.p.Scheme, blk.Reopen))
 		r.res.Reboots++
-		if blk.Reopen == 2 {
+		if root == r.disk {
 			r.checkFlat("after full flush and restart")
 		}
 	}
@@ -602,7 +620,8 @@ func dumpWorld(w World) string {
 		}
 		sort.Slice(ks, func(i, j int) bool { return bytes.Compare(ks[i][:], ks[j][:]) < 0 })
 		for _, k := range ks {
-			fmt.Fprintf(&b, " [%x]=%x", k[28:], trimZeros(acc.Stor[k][:]))
+			v := acc.Stor[k]
+			fmt.Fprintf(&b, " [%x]=%x", k[28:], trimZeros(v[:]))
 		}
 		b.WriteByte('\n')
 	}
